@@ -571,11 +571,15 @@ def shape_case(r):
         n, m = [r.randrange(3, 64) if r.random() < 0.85 else r.choice((90, 130, 200)) for _ in range(2)]
         lines += ['class Base(object):', '    def base_m(self):', '        return 1', '    battr = 1', 'b0 = Base']
         lines += ['b%d = b%d' % (i, i - 1) for i in range(1, n + 1)]
-        lines += ['class C(b%d):' % n, '    def own(self):', '        return 2', 'c = C()',
+        # an attribute whose value is memoised on the class's scope, produced by a factory reached through aliases
+        kf = r.randrange(2, 50)
+        lines += ['def factory():', '    return Base()', 'f0 = factory'] + ['f%d = f%d' % (i, i - 1) for i in range(1, kf + 1)]
+        lines += ['class C(b%d):' % n, '    def __init__(self):', '        self.made = f%d()' % kf,
+                  '    def own(self):', '        return 2', 'c = C()',
                   # (through an inherited attribute: the bases are needed in the middle of the deep evaluation)
-                  'y0 = ' + r.choice(('c', 'c.battr', 'C().battr', 'c.base_m()', 'C'))]
+                  'y0 = ' + r.choice(('c', 'c.battr', 'C().battr', 'c.base_m()', 'C', 'c.made', 'C().made.battr', 'c.made'))]
         lines += ['y%d = y%d' % (i, i - 1) for i in range(1, m + 1)]
-        asks += [('c', False), ('y%d' % m, True), ('C', False), ('y%d' % (m // 2), True), ('b%d' % n, True)]
+        asks += [('c', False), ('y%d' % m, True), ('C', False), ('y%d' % (m // 2), True), ('b%d' % n, True), ('c.made', False)]
     if kind in ('attrassign', 'both'):
         k = r.choice((1, 2, 3))
         lines += ['class Box(object):', '    def __init__(self):', '        self.x = Inner()', '    def get(self):',
